@@ -167,7 +167,8 @@ def check(index, ctx):
              "exactly `tensors` w.r.t. exactly the (given or discovered) inputs with cotangents paired in the outputs' order; the aggregator is applied exactly once, after all sweeps "
              "and before any .grad write, to a matrix whose columns are laid out over the inputs; .grad is written only on the inputs")
     ctx.rule("R2", "order/layout coherence: every pack (cat/stack/vstack) uses an order-preserving sequence; every zip pairs sequences of one common order; every slice of a packed "
-             "axis happens while iterating the very collection (same source, same mode) the axis was packed over; running-offset / prefix-sum idioms are well formed")
+             "axis happens while iterating the very collection (same source, same mode) the axis was packed over; running-offset / prefix-sum idioms are well formed; "
+             "the row blocks of the cotangents partition all rows in order (same rule as C07 R1)")
     ctx.rule("R3", "no axis-reordering operator in the pipeline; flatten/unflatten pairs are row-major reshape(-1)/view(rows,-1) vs view((rows,)+key.shape)")
     ctx.rule("R4", "every autograd.grad call has allow_unused=True and missing gradients are replaced by zeros_like of the corresponding input")
     ctx.rule("R5", "a parameter annotated Iterable[...] is materialised before any other traversal (one-shot iterables)")
@@ -187,6 +188,9 @@ def check(index, ctx):
                 materialise_rule(ctx, res, "R4", entry)
         # a returning path that skipped the pipeline without an empty collection is caught by stage_rule (it is a main path)
     idiom_rules(ctx, index, "R2")
+    from .C07 import partition_rule
+
+    partition_rule(ctx, P, rs, "R2")
     single_pass_rule(ctx, index, "R5", entry)
     ctx.floor("non-empty returning paths of backward", n_main, 3)
     _pipe.common_evidence(ctx, index, ("backward",))
